@@ -27,7 +27,7 @@ fn check(ctx: &Ctx, ws: &mut Workers, c: &ProgCase, counting: bool, strict: bool
     let r = c01::check_case_with(ctx, ws, c, counting, &cfgs, strict, "c08", &[Entry::Repl, Entry::Module], false, &nontrivial);
     if counting {
         for f in &c.features {
-            if ["continuation-reentry", "escape-through-wind", "reentry-into-wind", "error-through-wind", "reentry-into-map", "nested-handlers", "escape-from-depth", "capture-in-argument-position", "reentry-into-nested-winds", "reentry-from-sibling-wind"].contains(&f.as_str()) {
+            if ["continuation-reentry", "escape-through-wind", "reentry-into-wind", "error-through-wind", "reentry-into-map", "nested-handlers", "escape-from-depth", "capture-in-argument-position", "reentry-into-nested-winds", "reentry-from-sibling-wind", "reentry-into-closure-instance-recursion"].contains(&f.as_str()) {
                 ctx.stats.class(&format!("template:{}", f));
             }
         }
@@ -86,6 +86,7 @@ pub fn run(ctx: &Ctx, replay: Option<&str>) -> i32 {
         total,
         |ws, c, counting| match check(ctx, ws, c, counting, false) {
             Err(f) => {
+                let f = f.with_features(&c.features);
                 if let Some(k) = ctx.match_known(&f) {
                     if counting {
                         ctx.note_known_hit(&k.id);
@@ -109,7 +110,12 @@ pub fn run(ctx: &Ctx, replay: Option<&str>) -> i32 {
     let mut ws = Workers::new();
     let reduce = |ws: &mut Workers, c: &ProgCase, f: &Failure| -> (ProgCase, Failure) {
         let mut last = f.clone();
+        // the reduction has a wall-clock budget: past it every further candidate is rejected
+        let reduce_deadline = std::time::Instant::now() + std::time::Duration::from_secs(if ctx.quick() { 150 } else { 900 });
         let reduced = svmodel::shrink::reduce(&c.program, 1200, &mut |p| {
+            if std::time::Instant::now() > reduce_deadline {
+                return false;
+            }
             let cand = ProgCase { program: p.clone(), text: render_program(p), features: vec![], excluded: vec![] };
             match check(ctx, ws, &cand, false, false) {
                 Err(g) if g.sig == f.sig => {
